@@ -141,7 +141,8 @@ def catalogue():
     C["catch_none"] = (wf("m", [step("s1", [irq("a1"), irq("a2")]), step("s2", [irq("a3")])]), {})
     C["catch_all_and_code"] = (wf("m", [step("s1", [irq("a1", catches=[catch([step("cs1", [irq("ca1")])]), catch([step("cs2", [irq("ca2")])], on="e1")])]),
                                         step("s2", [irq("a3")])]), {})
-    C["env_flow"] = (wf("m", [step("s1", [code("c1", "$set_process_var(\"pv\", 7); $env.e1 = 5; return {y: 3};"), irq("a1")]), step("s2", [irq("a2")])],
+    C["env_flow"] = (wf("m", [step("s1", [code("c1", "$set_process_var(\"pv\", 7); $env.e1 = 5; return {y: 3};"), irq("a1")]),
+                              step("s2", [irq("a2", params={"v": "{{ $env.e1 }}", "w": "{{ $env.e0 }}"}), irq("a3", **{"if": "$env.e1 > 3"})])],
                         env={"e0": 1}, outputs={"y": None}), {})
     C["two_scope_vars"] = (wf("m", [step("s1", [irq("a1", _answer={"a": 5, "b": 6})], inputs={"b": 1}), step("s2", [irq("a2")])], inputs={"a": 1}), {})
     C["hook_completed_wf"] = (wf("m", [step("s1", [irq("a1")])], setup=[{"uses": "acts.core.msg", "key": "done_wf", "on": "completed"}]), {})
